@@ -687,6 +687,13 @@ func (c *Ctx) ruleSitesTONL() {
 	for _, code := range []string{"TONL01", "TONL02", "TONL03"} {
 		c.floor("report sites with code "+code, perCode[code], 1)
 	}
+	var ks []string
+	for k := range c.tonl01Kinds {
+		ks = append(ks, k)
+	}
+	sort.Strings(ks)
+	c.check(strings.Join(ks, ",") == "CompositeLit,Field,ValueSpec", rule+"/DISPATCH-COVER", "TONL01", "", "TONL01 is produced for composite literals, typed variable declarations and fields/parameters/results",
+		"TONL01 is not produced for all of composite literals, ValueSpec and Field nodes: "+strings.Join(ks, ","))
 	c.count("report sites", len(sites))
 }
 
@@ -792,6 +799,14 @@ func (c *Ctx) ruleSitesPKGO() {
 			}
 			return (P.isPassPkgCall(l.X, "Path") && !P.isPassPkgCall(l.Y, "Path")) || (P.isPassPkgCall(l.Y, "Path") && !P.isPassPkgCall(l.X, "Path")) ||
 				(P.isPassPkgCall(l.X, "Path") && P.isPassPkgCall(l.Y, "Path") && strings.Contains(P.Desc(l.X)+P.Desc(l.Y), "|"))
+		})
+		// the identifier path first restricts itself to objects of the current package (and then can never report):
+		// a positive comparison of an object's package path with pass.Pkg.Path() is part of the same-package test
+		si.take("local-object", func(l Lit) bool {
+			if l.Kind != "eq" || !l.Pos {
+				return false
+			}
+			return (P.isPassPkgCall(l.X, "Path") && c.rootsAre(l.Y, c.isPathCall)) || (P.isPassPkgCall(l.Y, "Path") && c.rootsAre(l.X, c.isPathCall))
 		})
 		c.require(si, rule, "OTHER-PACKAGE(-eq)", same, "no guard pkg(D) != pass.Pkg.Path(): references from the declaring package itself would be reported")
 
@@ -957,6 +972,10 @@ func (c *Ctx) tonl01Dispatch(si *siteInfo, rule string) {
 	var ks []string
 	for k := range kinds {
 		ks = append(ks, k)
+		if c.tonl01Kinds == nil {
+			c.tonl01Kinds = map[string]bool{}
+		}
+		c.tonl01Kinds[k] = true
 	}
 	sort.Strings(ks)
 	got := strings.Join(ks, ",")
@@ -964,7 +983,7 @@ func (c *Ctx) tonl01Dispatch(si *siteInfo, rule string) {
 		x, t, _ := typeAssertOK(l)
 		return x != nil && strings.HasPrefix(typeStr(t), "*go/ast.")
 	})
-	if got == "CompositeLit" || got == "Field,ValueSpec" {
+	if got == "CompositeLit" || got == "Field,ValueSpec" || got == "CompositeLit,Field,ValueSpec" || got == "Field" || got == "ValueSpec" {
 		c.ok(rule+"/DISPATCH", si.Name, where, "reached for node kinds "+got)
 	} else {
 		c.fail(rule+"/DISPATCH", si.Name, where, "TONL01 site is reached for node kinds ["+got+"]; the property lists composite literals, typed variable declarations (ValueSpec) and fields/parameters/results (Field)")
